@@ -29,6 +29,10 @@ func concEvents(args []string, out *bufio.Writer) {
 		var atomicEv, delEv []string
 		var pending sync.WaitGroup
 		var mixN atomic.Int64
+		var cref atomic.Pointer[otter.Cache[int, int]]
+		var handlerVal atomic.Int64
+		handlerVal.Store(9000000)
+		var handlerWritten []int
 		o := &otter.Options[int, int]{
 			MaximumSize: 1 + r.intn(5),
 			OnAtomicDeletion: func(e otter.DeletionEvent[int, int]) {
@@ -40,6 +44,18 @@ func concEvents(args []string, out *bufio.Writer) {
 				mu.Lock()
 				delEv = append(delEv, fmt.Sprintf("%d %d %s", e.Key, e.Value, e.Cause))
 				mu.Unlock()
+				// a listener may use the cache: now and then it writes a value of its own back (under another key) or
+				// invalidates a neighbour - those values are accounted for like every other written value
+				cc := cref.Load()
+				if cc != nil && e.Value%13 == 0 && e.Value < 9000000 {
+					nv := int(handlerVal.Add(1))
+					mu.Lock()
+					handlerWritten = append(handlerWritten, nv)
+					mu.Unlock()
+					cc.Set(e.Key+1, nv)
+				} else if cc != nil && e.Value%13 == 1 && e.Value < 9000000 {
+					cc.Invalidate(e.Key + 1)
+				}
 			},
 			// the default executor with bookkeeping, so that the end of all notifications can be awaited
 			Executor: func(fn func()) {
@@ -98,6 +114,9 @@ func concEvents(args []string, out *bufio.Writer) {
 		// in half of the scripts InvalidateAll runs concurrently with the writers, again and again
 		sweeper := r.chance(0.5)
 		c := otter.Must(o)
+		if i%2 == 0 {
+			cref.Store(c)
+		}
 		fmt.Fprintf(out, "cfg kind=%s big=%v sweeper=%v\n", kind, big, sweeper)
 		nkeys := 1 + r.intn(6)
 		writers := 2 + r.intn(7)
@@ -214,6 +233,8 @@ func concEvents(args []string, out *bufio.Writer) {
 			}
 		}
 		settle()
+		cref.Store(nil) // the listeners stop writing back: what follows empties the cache
+		settle()
 		c.InvalidateAll()
 		c.CleanUp()
 		settle()
@@ -222,6 +243,11 @@ func concEvents(args []string, out *bufio.Writer) {
 				fmt.Fprintf(out, "written %d\n", v)
 			}
 		}
+		mu.Lock()
+		for _, v := range handlerWritten {
+			fmt.Fprintf(out, "written %d\n", v)
+		}
+		mu.Unlock()
 		mu.Lock()
 		for _, e := range atomicEv {
 			fmt.Fprintf(out, "atomic %s\n", e)
